@@ -62,6 +62,7 @@ func c11Scenario(tier string) *core.Scenario {
 			subset := 1 + c.Pick("subset", (1<<uint(nsites))-1)
 			depth := 1 + c.Pick("depth", depths)
 			body := c.Pick("body", 3)
+			style := c.Pick("name_style", 3)
 			placement := c.Pick("placement", 3) // 0 all first, 1 each just before its use, 2 all first but in REVERSE dependency order
 			early := placement != 1
 			var inl, abs [4]string
@@ -74,7 +75,8 @@ func c11Scenario(tier string) *core.Scenario {
 				}
 				// chain: N_i_1 EQU body ; N_i_2 EQU N_i_1 ; ... ; use N_i_depth
 				var lines []string
-				base := fmt.Sprintf("K%d", i)
+				base := []string{"K%d", "k%d", "Kx%d_v"}[style] // upper case (the style of the book), lower case, mixed
+				base = fmt.Sprintf(base, i)
 				switch body {
 				case 0:
 					lines = append(lines, fmt.Sprintf("%s_1 EQU %s\n", base, c11Lit(vs[i])))
@@ -115,8 +117,8 @@ func c11Scenario(tier string) *core.Scenario {
 				abstracted = c11Fill(sb.String(), abs)
 			}
 			return &core.Case{
-				Key:       fmt.Sprintf("%s vals=%v subset=%04b depth=%d body=%d early=%v", p.name, vs, subset, depth, body, early),
-				Feat:      feat("prog", p.name, "subset", fmt.Sprintf("%04b", subset), "depth", fmt.Sprint(depth), "body", fmt.Sprint(body), "early", fmt.Sprint(early)),
+				Key:       fmt.Sprintf("%s vals=%v subset=%04b depth=%d body=%d early=%v", p.name, vs, subset, depth, body, early) + []string{"", " names=lower", " names=Mixed"}[style],
+				Feat:      feat("prog", p.name, "subset", fmt.Sprintf("%04b", subset), "depth", fmt.Sprint(depth), "body", fmt.Sprint(body), "early", fmt.Sprint(early), "name_style", fmt.Sprint(style)),
 				FreshRefs: true, Srcs: []string{abstracted, inlined},
 				Judge: func(rs []*core.Result) core.Verdict {
 					v := core.Verdict{}
@@ -156,11 +158,14 @@ func c11Special() *core.Scenario {
 		{"X EQU 320\nY EQU 200\nD EQU 5\nS EQU 2\n\tMOV AX,X\n\tMOV BX,Y\n\tMOV DWORD [EBX],D\n\tMOV SI,S\n\tADD AX,BX\n\tMOV DX,X+Y\n", "\tMOV AX,320\n\tMOV BX,200\n\tMOV DWORD [EBX],5\n\tMOV SI,2\n\tADD AX,BX\n\tMOV DX,320+200\n"},
 		{"LEN EQU 4\nMSGLEN:\n\tDB LEN\n\tMOV CX,LEN\n\tMOV BX,MSGLEN\n\tJMP MSGLEN\n", "MSGLEN:\n\tDB 4\n\tMOV CX,4\n\tMOV BX,MSGLEN\n\tJMP MSGLEN\n"},
 		{"A EQU B+1\nB EQU C*2\nC EQU 3\n\tMOV AX,A\n\tDB A,B,C\n\tRESB A\n\tADD CX,A\n", "\tMOV AX,7\n\tDB 7,6,3\n\tRESB 7\n\tADD CX,7\n"},
+		// string-valued names (also one whose text contains its own name), character literals, lower-case and dotted names
+		{"OEMNAME EQU \"HARIBOTE\"\nVOL EQU \"HELLO-OS   \"\nOEM EQU \"OEM name\"\n\tDB OEMNAME\n\tDW 512\n\tDB VOL,0\n\tDB OEM\n\tDB OEMNAME,VOL\n", "\tDB \"HARIBOTE\"\n\tDW 512\n\tDB \"HELLO-OS   \",0\n\tDB \"OEM name\"\n\tDB \"HARIBOTE\",\"HELLO-OS   \"\n"},
+		{"CR EQU 0x0d\nlf EQU 0x0a\nStar EQU '*'\n.pad EQU 3\ncfg.size EQU .pad*2\n\tMOV AL,Star\n\tDB CR,lf,Star\n\tRESB .pad\n\tDW cfg.size\n\tCMP AL,Star+1\n", "\tMOV AL,'*'\n\tDB 0x0d,0x0a,'*'\n\tRESB 3\n\tDW 6\n\tCMP AL,'*'+1\n"},
 		{"E EQU 1\nAX2 EQU 2\n\tMOV AX,E\n\tMOV EAX,AX2\n\tMOV ES,AX\n\tDB E,AX2\n", "\tMOV AX,1\n\tMOV EAX,2\n\tMOV ES,AX\n\tDB 1,2\n"},
 	}
 	return &core.Scenario{
 		Name: "equ_special", Bound: -1,
-		Rule:   "6 hand-written program pairs (with EQU names / inlined) x ORG {none, 0x7c00} x BITS: EQU capturing $, names that are substrings of registers, keywords or labels, names used in EQU bodies before their own definition",
+		Rule:   "8 hand-written program pairs (with EQU names / inlined) x ORG {none, 0x7c00} x BITS: EQU capturing $, names that are substrings of registers, keywords or labels, names used in EQU bodies before their own definition, string-valued and character-valued names, lower-case and dotted names",
 		Bounds: map[string]any{"pairs": len(pairs)},
 		Build: func(c *core.Chooser) *core.Case {
 			pi := c.Pick("pair", len(pairs))
